@@ -129,9 +129,11 @@ Proof.
   intros N pos f s HN. unfold finalize_or_throw.
   destruct (negb (a_writing (ents s f))); [discriminate|].
   destruct (negb (0 <? e_size (ents s f))); [discriminate|].
+  destruct (negb (e_anch (ents s f))); [discriminate|].
   destruct (fin_walk N pos f (e_size (ents s f)) (fuel_of N) (a_start (ents s f)) 0 s) eqn:W; try discriminate.
   - destruct (negb (slotId <? 0)); [discriminate|].
     destruct (negb (mapped =? e_size (ents s f))); [discriminate|].
+    match goal with |- context [negb (?a || ?b)] => destruct (negb (a || b)) end; [discriminate|].
     match goal with |- context [negb (a_writing ?e)] => destruct (negb (a_writing e)) end; discriminate.
   - exfalso. revert W. apply fin_walk_fuel; [assumption|]. unfold fuel_of.
     pose proof (cnt_le nonfinal (sls s) (Z.to_nat N)). lia.
@@ -230,7 +232,7 @@ Proof.
     + match goal with |- context [import_entry ?a ?b ?c] => destruct (import_entry a b c) end.
       * apply free_bad_entry_total; assumption.
       * destruct (negb (h_esz h =? 0)); [|apply add_tail_total; assumption].
-        destruct (h_esz h =? rr_entry_size_max); [discriminate|].
+        destruct (h_esz h =? rr_entry_size_max); [apply free_bad_entry_total; assumption|].
         destruct (a_swapsz e =? 0); [apply add_tail_total; assumption|].
         destruct (negb (h_esz h =? a_swapsz e)); [apply free_bad_entry_total | apply add_tail_total]; assumption.
 Qed.
@@ -344,11 +346,27 @@ Definition dE : dslot := DHdr (mkHdr 0 0 0 0 0 0 0) MZero.
 
 (* ---- witnesses (each confirmed against the real code through the harness, corpus/C57/known.txt) ---- *)
 
-(* a single cell whose entrySize field is all ones aborts the rebuild (assert(totalSize != -1)) *)
-Lemma crash_allones_witness :
-  rebuild 131072 false
-    [DHdr (mkHdr 5 7 rr_entry_size_max 200 1 0 (-1)) (MOk true 5 7 0 false 75); dE; dE; dE; dE; dE; dE] = Abort.
-Proof. vm_compute. reflexivity. Qed.
+(* repaired in /repo (e9a49c7): a cell whose entrySize field, or whose swap metadata size, is all ones is
+   dropped instead of tripping an assert; nothing is indexed *)
+Lemma allones_entry_size_regress :
+  holds_after 131072 false
+    [DHdr (mkHdr 5 7 rr_entry_size_max 200 1 0 (-1)) (MOk true 5 7 0 false 75); dE; dE; dE; dE; dE; dE]
+    (fun s => forall f, 0 <= f < 7 -> readable (ents s f) = false).
+Proof.
+  unfold holds_after. set (r := rebuild _ _ _). vm_compute in r. subst r. cbv beta iota.
+  intros f Hf. assert (f = 0 \/ f = 1 \/ f = 2 \/ f = 3 \/ f = 4 \/ f = 5 \/ f = 6) as X by lia.
+  destruct X as [->|[->|[->|[->|[->|[->| ->]]]]]]; reflexivity.
+Qed.
+
+Lemma allones_meta_size_regress :
+  holds_after 131072 false
+    [DHdr (mkHdr 5 7 0 100 1 0 (-1)) (MOk true 5 7 rr_entry_size_max false 75); dE; dE; dE; dE; dE; dE]
+    (fun s => forall f, 0 <= f < 7 -> readable (ents s f) = false).
+Proof.
+  unfold holds_after. set (r := rebuild _ _ _). vm_compute in r. subst r. cbv beta iota.
+  intros f Hf. assert (f = 0 \/ f = 1 \/ f = 2 \/ f = 3 \/ f = 4 \/ f = 5 \/ f = 6) as X by lia.
+  destruct X as [->|[->|[->|[->|[->|[->| ->]]]]]]; reflexivity.
+Qed.
 
 (* cross-linked chains: entry A absorbs slot 0 of entry B, B's later validation failure frees slot 0, a third
    cell of A's key then frees A's chain again: the free-slot index asserts on the second push of slot 0 *)
@@ -384,27 +402,6 @@ Qed.
 (* with squid -S the leftover slot 2 of that image makes validateOneSlot throw out of the job *)
 Lemma crash_doublecheck_witness : exists s, rebuild 131072 true img_freed_slot_in_use = Thrown s.
 Proof. eexists. vm_compute. reflexivity. Qed.
-
-(* an inode announcing 300 bytes, followed by nothing, with nextSlot = -1: indexed with 100 bytes of chain *)
-Lemma short_chain_witness :
-  holds_after 131072 false
-    [DHdr (mkHdr 5 7 300 100 1 0 (-1)) (MOk true 5 7 0 false 75); dE; dE; dE; dE; dE; dE] (fun s =>
-    readable (ents s 5) = true /\ chain_of s (a_start (ents s 5)) [0] /\
-    sumsz s [0] = 100 /\ a_swapsz (ents s 5) = 300).
-Proof.
-  unfold holds_after. set (r := rebuild _ _ _). vm_compute in r. subst r. cbv beta iota.
-  repeat split; cbn; lia.
-Qed.
-
-(* a lone continuation cell (its first slot, 4, is empty) is indexed as a complete entry *)
-Lemma no_inode_witness :
-  holds_after 131072 false
-    [DHdr (mkHdr 5 7 0 100 1 4 (-1)) MBad; dE; dE; dE; dE; dE; dE] (fun s =>
-    readable (ents s 5) = true /\ chain_of s (a_start (ents s 5)) [0] /\ e_anch (ents s 5) = false).
-Proof.
-  unfold holds_after. set (r := rebuild _ _ _). vm_compute in r. subst r. cbv beta iota.
-  repeat split; cbn; lia.
-Qed.
 
 (* two chains with swapped nextSlot links: both entries end up readable, each with a slot of the other key *)
 Definition img_hodgepodge : list dslot :=
@@ -459,7 +456,7 @@ Definition ent_ok (e : entry) : Prop :=
   match e_state e with
   | LeEmpty => e = entry0
   | LeLoading => a_writing e = true
-  | LeLoaded => a_writing e = false
+  | LeLoaded => a_writing e = false /\ e_anch e = true /\ a_swapsz e = e_size e
   | LeCorrupted => a_writing e = false /\ a_empty e = true
   | LeIgnored => False
   end.
@@ -731,22 +728,28 @@ Proof.
   intros N pos f s I. unfold finalize_or_throw.
   destruct (a_writing (ents s f)) eqn:W; cbn [negb]; [|exact Logic.I].
   destruct (negb (0 <? e_size (ents s f))); [apply quiet_refl|].
+  destruct (e_anch (ents s f)) eqn:An; cbn [negb]; [|apply quiet_refl].
   pose proof (fin_walk_spec N pos f (e_size (ents s f)) (fuel_of N) (a_start (ents s f)) 0 s) as WS.
   destruct (fin_walk N pos f (e_size (ents s f)) (fuel_of N) (a_start (ents s f)) 0 s) as [s1 j m|s1| |]; auto.
   pose proof (walk_post_quiet _ _ _ _ _ _ _ WS) as Q.
   destruct (j <? 0) eqn:J; cbn [negb]; [|exact Q].
   destruct (m =? e_size (ents s f)) eqn:Mq; cbn [negb]; [|exact Q].
   destruct WS as (l & P & ND & Mem & Sum & En & In1 & Out1).
+  rewrite En.
+  destruct ((a_swapsz (ents s f) =? 0) || (a_swapsz (ents s f) =? e_size (ents s f))) eqn:Szq; cbn [negb]; [|exact Q].
   match goal with |- context [negb (a_writing ?e)] => destruct (negb (a_writing e)) end; [exact Logic.I|].
   destruct Q as [_ C].
   match goal with |- Inv N (inc_obj (set_ent s1 f ?e)) => set (e' := e) end.
-  assert (St : e_state e' = LeLoaded) by (subst e'; destruct (a_swapsz (ents s1 f) =? 0); reflexivity).
-  assert (Wr : a_writing e' = false) by (subst e'; destruct (a_swapsz (ents s1 f) =? 0); reflexivity).
-  assert (Sz : e_size e' = e_size (ents s f)) by (subst e'; rewrite En; destruct (a_swapsz (ents s f) =? 0); reflexivity).
-  assert (Sa : a_start e' = a_start (ents s f)) by (subst e'; rewrite En; destruct (a_swapsz (ents s f) =? 0); reflexivity).
+  assert (St : e_state e' = LeLoaded) by (subst e'; destruct (a_swapsz (ents s f) =? 0); reflexivity).
+  assert (Wr : a_writing e' = false) by (subst e'; destruct (a_swapsz (ents s f) =? 0); reflexivity).
+  assert (Sz : e_size e' = e_size (ents s f)) by (subst e'; destruct (a_swapsz (ents s f) =? 0); reflexivity).
+  assert (Sa : a_start e' = a_start (ents s f)) by (subst e'; destruct (a_swapsz (ents s f) =? 0); reflexivity).
+  assert (Ea : e_anch e' = true) by (subst e'; destruct (a_swapsz (ents s f) =? 0); cbn; exact An).
+  assert (Sw : a_swapsz e' = e_size (ents s f)).
+  { subst e'. destruct (a_swapsz (ents s f) =? 0) eqn:Z0; cbn; [reflexivity|]. cbn in Szq. lia. }
   apply (Inv_step N s _ f (fun _ => False)); st_simp; auto.
   - intros g Hg. rewrite upd_other by assumption. rewrite En. reflexivity.
-  - rewrite upd_same. unfold ent_ok. rewrite St. exact Wr.
+  - rewrite upd_same. unfold ent_ok. rewrite St. rewrite Sw, Sz. auto.
   - intros _. exists l. split.
     + unfold good_chain. st_simp. rewrite upd_same. rewrite Sa, Sz. split; [|split; [exact ND|split]].
       * eapply chain_of_frame; [|eapply path_chain; [exact P|lia]].
@@ -829,7 +832,9 @@ Proof.
   intros h m e e5 H. unfold import_entry in H. destruct m as [| |hk mk0 mk1 ssz pr hl]; try discriminate.
   destruct (negb hk); [discriminate|].
   match type of H with context [match ?o with Some _ => _ | None => _ end] => destruct o end; [|discriminate].
-  destruct pr; [discriminate|]. inversion H; subst. cbn. auto.
+  destruct pr; [discriminate|].
+  match type of H with context [if ?c then ImpFail false else _] => destruct c end; [discriminate|].
+  inversion H; subst. cbn. auto.
 Qed.
 
 Lemma add_tail_inv : forall N pos f i h s s',
@@ -891,7 +896,8 @@ Proof.
         assert (L6 : e_state (ents (set_ent (set_ent s4 f e5) f (e_set_swapsz e5 (h_esz h))) f) = LeLoading)
           by (destruct T6 as (_&_&X&_); exact X).
         destruct (negb (h_esz h =? 0)).
-        -- destruct (h_esz h =? rr_entry_size_max); [discriminate|].
+        -- destruct (h_esz h =? rr_entry_size_max).
+           { eapply free_bad_entry_inv; [eapply Inv_tw; [exact I|exact T5]| |exact H]. rewrite L5; discriminate. }
            destruct (a_swapsz e5 =? 0).
            ++ eapply add_tail_inv; [eapply Inv_tw; [exact I|exact T6]|exact L6|exact H].
            ++ destruct (negb (h_esz h =? a_swapsz e5)).
@@ -928,7 +934,7 @@ Lemma loaded_dup_inv : forall N f s s',
   free_entry N f (set_ent s f (e_set_state (ents s f) LeCorrupted)) = Ok s' -> Inv N s'.
 Proof.
   intros N f s s' I L H.
-  pose proof (iv_ent N s I f) as Ef. unfold ent_ok in Ef. rewrite L in Ef.
+  pose proof (iv_ent N s I f) as Ef. unfold ent_ok in Ef. rewrite L in Ef. destruct Ef as [Ef _].
   destruct (iv_chain N s I f L) as [l G].
   unfold free_entry in H. st_simp. rewrite upd_same in H. cbn [a_writing e_set_state] in H. rewrite Ef in H.
   unfold free_chain in H. st_simp. rewrite upd_same in H.
@@ -1158,4 +1164,266 @@ Lemma two_entries_example :
 Proof.
   unfold holds_after. set (r := rebuild _ _ _). vm_compute in r. subst r. cbv beta iota.
   repeat split; cbn; lia.
+Qed.
+
+(* ================================================================ 4. after the repair of e9a49c7 *)
+
+Lemma readable_anchored : forall slotSize dbl img s f,
+  rebuild slotSize dbl img = Ok s -> readable (ents s f) = true -> e_anch (ents s f) = true.
+Proof.
+  intros ssz dbl img s f H R. apply rebuild_inv in H. pose proof (iv_ent _ s H f) as E.
+  pose proof (readable_loaded _ E R) as L. unfold ent_ok in E. rewrite L in E. tauto.
+Qed.
+
+Lemma readable_chain_sizes : forall slotSize dbl img s f l,
+  rebuild slotSize dbl img = Ok s -> readable (ents s f) = true ->
+  chain_of s (a_start (ents s f)) l -> sumsz s l = a_swapsz (ents s f).
+Proof.
+  intros ssz dbl img s f l H R C. rewrite (readable_chain_sizes_partial ssz dbl img s f l H R C).
+  apply rebuild_inv in H. pose proof (iv_ent _ s H f) as E.
+  pose proof (readable_loaded _ E R) as L. unfold ent_ok in E. rewrite L in E. destruct E as (_&_&E). congruence.
+Qed.
+
+(* importEntry never lets an all-ones size into the index *)
+Lemma import_never_allones : forall h m e e', import_entry h m e = ImpOk e' -> a_swapsz e' <> rr_entry_size_max.
+Proof.
+  intros h m e e' H. unfold import_entry in H. destruct m as [| |hk mk0 mk1 ssz pr hl]; try discriminate.
+  destruct (negb hk); [discriminate|].
+  match type of H with context [match ?o with Some _ => _ | None => _ end] => destruct o as [z|] end; [|discriminate].
+  destruct pr; [discriminate|]. destruct (z =? rr_entry_size_max) eqn:Z; [discriminate|].
+  inversion H; subst. cbn. lia.
+Qed.
+
+(* ================================================================ 5. which cells a chain is made of *)
+
+Definition cell (img : list dslot) (x : Z) : option dslot :=
+  if x <? 0 then None else nth_error img (Z.to_nat x).
+
+(* slot x of the image holds a cell that the rebuild uses (not empty, sane) *)
+Definition live (ssz : Z) (img : list dslot) (x : Z) (h : hdr) (m : meta) : Prop :=
+  cell img x = Some (DHdr h m) /\ hdr_empty h = false /\ hdr_sane ssz (Z.of_nat (length img)) h = true.
+
+Definition meta_keys_match (img : list dslot) : Prop :=
+  forall x h mk0 mk1 sz pr hl, cell img x = Some (DHdr h (MOk true mk0 mk1 sz pr hl)) -> mk0 = h_k0 h /\ mk1 = h_k1 h.
+
+Record Own (ssz : Z) (img : list dslot) (s : st) : Prop := mkOwn {
+  own_slot : forall x, s_mapped (sls s x) = true ->
+     exists h m, live ssz img x h m /\ (0 < s_size (sls s x) -> s_next (sls s x) = h_next h);
+  own_start : forall f, e_anch (ents s f) = true -> a_empty (ents s f) = false ->
+     exists h m, live ssz img (a_start (ents s f)) h m /\ a_k0 (ents s f) = h_k0 h /\ a_k1 (ents s f) = h_k1 h }.
+
+Definition slot_ok (x y : sl) : Prop :=
+  core_le x y \/ (s_mapped y = s_mapped x /\ s_size y = 0).
+
+Definition keep (e e' : entry) : Prop :=
+  e_anch e' = e_anch e /\ a_start e' = a_start e /\ a_k0 e' = a_k0 e /\ a_k1 e' = a_k1 e.
+
+(* footprint: slots keep (mapped,size,next) or are cleared; entry f keeps (anchored,start,key) or loses its key *)
+Definition fp (f : Z) (s s' : st) : Prop :=
+  (forall x, slot_ok (sls s x) (sls s' x)) /\ (forall g, g <> f -> ents s' g = ents s g) /\
+  (keep (ents s f) (ents s' f) \/ a_empty (ents s' f) = true).
+
+Lemma slot_ok_trans : forall x y z, slot_ok x y -> slot_ok y z -> slot_ok x z.
+Proof.
+  unfold slot_ok, core_le. intros x y z [(A1&A2&A3&A4)|(A1&A2)] [(B1&B2&B3&B4)|(B1&B2)].
+  - left. repeat split; try congruence. auto.
+  - right. split; congruence.
+  - right. split; congruence.
+  - right. split; congruence.
+Qed.
+
+Lemma fp_refl : forall f s, fp f s s.
+Proof. intros. split; [intros; left; apply core_le_refl|]. split; [reflexivity|]. left. unfold keep; auto. Qed.
+
+Lemma fp_trans : forall f a b c, fp f a b -> fp f b c -> fp f a c.
+Proof.
+  intros f a b c (S1&E1&K1) (S2&E2&K2). split; [intros x; eapply slot_ok_trans; eauto|]. split.
+  - intros g Hg. rewrite E2, E1 by assumption. reflexivity.
+  - destruct K2 as [K2|K2]; [|right; exact K2]. destruct K1 as [K1|K1].
+    + left. unfold keep in *. destruct K1 as (?&?&?&?). destruct K2 as (?&?&?&?). repeat split; congruence.
+    + right. unfold a_empty in *. destruct K2 as (_&_&A&B). rewrite A, B. exact K1.
+Qed.
+
+Lemma Own_fp : forall ssz img f s s', Own ssz img s -> fp f s s' -> Own ssz img s'.
+Proof.
+  intros ssz img f s s' O (S&E&K). constructor.
+  - intros x Mx. destruct (S x) as [(A1&A2&A3&_)|(A1&A2)].
+    + rewrite A1 in Mx. destruct (own_slot _ _ _ O x Mx) as (h&m&L&Nx). exists h, m. split; [exact L|]. rewrite A2, A3. exact Nx.
+    + rewrite A1 in Mx. destruct (own_slot _ _ _ O x Mx) as (h&m&L&_). exists h, m. split; [exact L|]. lia.
+  - intros g An Em. destruct (Z.eq_dec g f) as [->|Hg].
+    + destruct K as [(K1&K2&K3&K4)|K]; [|congruence].
+      rewrite K1 in An. assert (Em' : a_empty (ents s f) = false) by (unfold a_empty in *; rewrite <- K3, <- K4; exact Em).
+      destruct (own_start _ _ _ O f An Em') as (h&m&L&A&B). exists h, m. rewrite K2, K3, K4. auto.
+    + rewrite E in * by assumption. apply (own_start _ _ _ O g An Em).
+Qed.
+
+Lemma quiet_fp : forall f s s', quiet s s' -> fp f s s'.
+Proof.
+  intros f s s' [E C]. split; [intros; left; apply C|]. split; [intros; rewrite E; reflexivity|].
+  left. rewrite E. unfold keep; auto.
+Qed.
+
+Lemma free_bad_entry_fp : forall N pos f s s', free_bad_entry N pos f s = Ok s' -> fp f s s'.
+Proof.
+  intros N pos f s s' H. unfold free_bad_entry in H. st_simp. rewrite upd_same in H.
+  cbn [a_writing e_set_state a_start e_size] in H.
+  destruct (negb (a_writing (ents s f))); [discriminate|].
+  match type of H with context [if negb ?c then Abort else _] => destruct (negb c) end; [discriminate|].
+  apply bind_ok in H. destruct H as [s1 [H1 H2]].
+  apply free_more_chain_quiet in H1. destruct H1 as [E1 C1]. st_simp.
+  unfold forget_writing in H2. destruct (negb (a_writing (ents s1 f))); [discriminate|].
+  inversion H2; subst s'; clear H2. split; st_simp; [intros; left; apply C1|]. split.
+  - intros g Hg. rewrite upd_other by assumption. rewrite E1. rewrite upd_other by assumption. reflexivity.
+  - right. rewrite upd_same. reflexivity.
+Qed.
+
+Lemma finalize_or_throw_fp : forall N pos f s,
+  match finalize_or_throw N pos f s with
+  | Ok s' => fp f s s'
+  | Thrown s' => quiet s s'
+  | _ => True
+  end.
+Proof.
+  intros N pos f s. unfold finalize_or_throw.
+  destruct (a_writing (ents s f)) eqn:W; cbn [negb]; [|exact I].
+  destruct (negb (0 <? e_size (ents s f))); [apply quiet_refl|].
+  destruct (e_anch (ents s f)) eqn:An; cbn [negb]; [|apply quiet_refl].
+  pose proof (fin_walk_spec N pos f (e_size (ents s f)) (fuel_of N) (a_start (ents s f)) 0 s) as WS.
+  destruct (fin_walk N pos f (e_size (ents s f)) (fuel_of N) (a_start (ents s f)) 0 s) as [s1 j m|s1| |]; auto.
+  pose proof (walk_post_quiet _ _ _ _ _ _ _ WS) as Q.
+  destruct (negb (j <? 0)); [exact Q|]. destruct (negb (m =? e_size (ents s f))); [exact Q|].
+  match goal with |- context [negb (?a || ?b)] => destruct (negb (a || b)) end; [exact Q|].
+  match goal with |- context [negb (a_writing ?e)] => destruct (negb (a_writing e)) end; [exact I|].
+  destruct Q as [En C]. split; st_simp; [intros; left; apply C|]. split.
+  - intros g Hg. rewrite upd_other by assumption. rewrite En. reflexivity.
+  - left. rewrite upd_same. rewrite En. unfold keep. destruct (a_swapsz (ents s f) =? 0); cbn; auto.
+Qed.
+
+Lemma finalize_or_free_fp : forall N pos f s s', finalize_or_free N pos f s = Ok s' -> fp f s s'.
+Proof.
+  intros N pos f s s' H. unfold finalize_or_free in H. pose proof (finalize_or_throw_fp N pos f s) as F.
+  destruct (finalize_or_throw N pos f s) as [s1|s1| |]; try discriminate.
+  - inversion H; subst; exact F.
+  - eapply fp_trans; [apply quiet_fp; exact F|eapply free_bad_entry_fp; eauto].
+Qed.
+
+Lemma map_slot_own : forall ssz img pos i h m s s',
+  Own ssz img s -> live ssz img i h m -> map_slot (Z.of_nat (length img)) pos i h s = Ok s' -> Own ssz img s' /\ ents s' = ents s.
+Proof.
+  intros ssz img pos i h m s s' O L H. unfold map_slot in H.
+  destruct (negb (ls_ok _ pos i)); [discriminate|]. destruct (s_mapped (sls s i)); [discriminate|].
+  destruct (s_freed (sls s i)); [discriminate|]. inversion H; subst s'; clear H. split; [|reflexivity].
+  constructor; st_simp.
+  - intros x Mx. unfold upd in *. destruct (x =? i) eqn:E.
+    + assert (x = i) by lia. subst x. exists h, m. split; [exact L|]. cbn. auto.
+    + apply (own_slot _ _ _ O x Mx).
+  - apply (own_start _ _ _ O).
+Qed.
+
+Lemma add_tail_own : forall ssz img pos f i h m s s',
+  Own ssz img s -> live ssz img i h m -> add_tail (Z.of_nat (length img)) pos f i h s = Ok s' -> Own ssz img s'.
+Proof.
+  intros ssz img pos f i h m s s' O L H. unfold add_tail in H.
+  match type of H with context [if ?c then free_bad_entry _ _ _ _ else _] => destruct c end.
+  - eapply Own_fp; [exact O|eapply free_bad_entry_fp; eauto].
+  - apply bind_ok in H. destruct H as [s1 [H1 H2]].
+    eapply map_slot_own in H1; eauto. destruct H1 as [O1 E1].
+    match type of H2 with context [if ?c then _ else _] => destruct c end.
+    + eapply Own_fp; [exact O1|eapply finalize_or_free_fp; eauto].
+    + inversion H2; subst; exact O1.
+Qed.
+
+(* an update of entry f that keeps (anchored, start, key) *)
+Lemma Own_set_keep : forall ssz img f s e, Own ssz img s -> keep (ents s f) e -> Own ssz img (set_ent s f e).
+Proof.
+  intros ssz img f s e O K. apply (Own_fp ssz img f s); [exact O|]. split; st_simp; [intros; left; apply core_le_refl|]. split.
+  - intros g Hg. apply upd_other; assumption.
+  - left. rewrite upd_same. exact K.
+Qed.
+
+Lemma Own_set_more : forall ssz img s i v, Own ssz img s -> Own ssz img (set_sl s i (s_set_more (sls s i) v)).
+Proof.
+  intros ssz img s i v O. eapply (Own_fp ssz img 0); [exact O|]. apply quiet_fp. split; [reflexivity|].
+  intros x. st_simp. unfold upd. destruct (x =? i) eqn:E; [|apply core_le_refl].
+  assert (x = i) by lia. subst. unfold core_le; cbn; auto.
+Qed.
+
+Lemma import_keys : forall h m e e5, import_entry h m e = ImpOk e5 ->
+  exists mk0 mk1 sz pr hl, m = MOk true mk0 mk1 sz pr hl /\ a_k0 e5 = mk0 /\ a_k1 e5 = mk1 /\
+    e_anch e5 = e_anch e /\ a_start e5 = a_start e.
+Proof.
+  intros h m e e5 H. unfold import_entry in H. destruct m as [| |hk mk0 mk1 ssz pr hl]; try discriminate.
+  destruct hk; cbn [negb] in H; [|discriminate].
+  match type of H with context [match ?o with Some _ => _ | None => _ end] => destruct o end; [|discriminate].
+  destruct pr; [discriminate|].
+  match type of H with context [if ?c then ImpFail false else _] => destruct c end; [discriminate|].
+  inversion H; subst. exists mk0, mk1, ssz, false, hl. cbn. auto.
+Qed.
+
+Lemma add_slot_to_entry_own : forall ssz img pos f i h m s s',
+  Own ssz img s -> meta_keys_match img -> live ssz img i h m ->
+  a_k0 (ents s f) = h_k0 h -> a_k1 (ents s f) = h_k1 h ->
+  add_slot_to_entry (Z.of_nat (length img)) pos f i h m s = Ok s' -> Own ssz img s'.
+Proof.
+  intros ssz img pos f i h m s s' O HK L K0 K1 H. unfold add_slot_to_entry in H.
+  destruct (negb (a_writing (ents s f))); [discriminate|].
+  apply bind_ok in H. destruct H as [s2 [Hc H]].
+  (* after chaining: Own, key unchanged, and if not yet anchored the start is i *)
+  assert (T2 : Own ssz img s2 /\ a_k0 (ents s2 f) = h_k0 h /\ a_k1 (ents s2 f) = h_k1 h /\
+               e_anch (ents s2 f) = e_anch (ents s f) /\ (e_anch (ents s f) = false -> a_start (ents s2 f) = i)).
+  { destruct (e_anch (ents s f)) eqn:An.
+    - destruct (negb (ls_ok _ pos (a_start (ents s f)))); [discriminate|].
+      destruct (negb (ls_ok _ pos i)); [discriminate|].
+      destruct (negb (s_more (sls s i) <? 0)); [discriminate|]. inversion Hc; subst s2; clear Hc.
+      split; [apply Own_set_more; apply Own_set_more; exact O|]. st_simp. repeat split; auto. discriminate.
+    - destruct (negb (ls_ok _ pos i)); [discriminate|].
+      destruct (negb (s_more (sls s i) <? 0)); [discriminate|]. inversion Hc; subst s2; clear Hc.
+      split.
+      + pose proof (Own_set_more ssz img s i (a_start (ents s f)) O) as O1. constructor; st_simp.
+        * apply (own_slot _ _ _ O1).
+        * intros g Ag Eg. unfold upd in *. destruct (g =? f) eqn:E.
+          -- cbn in Ag. congruence.
+          -- apply (own_start _ _ _ O g Ag Eg).
+      + st_simp. rewrite upd_same. cbn. auto. }
+  clear Hc. destruct T2 as (O2&A0&A1&An2&St2). cbv zeta in H.
+  set (s3 := set_ent s2 f (e_set_size (ents s2 f) (e_size (ents s2 f) + h_psz h))) in *.
+  assert (O3 : Own ssz img s3) by (apply Own_set_keep; [exact O2|unfold keep; cbn; auto]).
+  assert (E3 : ents s3 f = e_set_size (ents s2 f) (e_size (ents s2 f) + h_psz h)) by (subst s3; st_simp; apply upd_same).
+  destruct (h_first h =? i).
+  - destruct (e_anch (ents s3 f)) eqn:An3.
+    + apply bind_ok in H. destruct H as [s4 [H4 H5]]. inversion H5; subst s'; clear H5.
+      eapply Own_fp; [|apply (quiet_fp f); apply quiet_inc; reflexivity].
+      eapply Own_fp; [exact O3|eapply free_bad_entry_fp; eauto].
+    + (* the inode: becomes the anchored start *)
+      assert (NA : e_anch (ents s f) = false) by (rewrite E3 in An3; cbn in An3; congruence).
+      specialize (St2 NA).
+      set (s4 := set_ent s3 f (e_set_anch (ents s3 f) true)) in *.
+      assert (O4 : Own ssz img s4).
+      { constructor; subst s4; st_simp.
+        - apply (own_slot _ _ _ O3).
+        - intros g Ag Eg. unfold upd in *. destruct (g =? f) eqn:E.
+          + exists h, m. rewrite E3. cbn. rewrite St2. auto.
+          + apply (own_start _ _ _ O3 g Ag Eg). }
+      assert (E4 : ents s4 f = e_set_anch (ents s3 f) true) by (subst s4; st_simp; apply upd_same).
+      destruct (import_entry h m (ents s4 f)) as [bf|e5] eqn:Imp.
+      * eapply Own_fp; [|eapply free_bad_entry_fp; exact H].
+        destruct bf; [|exact O4]. eapply Own_fp; [exact O4|apply (quiet_fp f); apply quiet_inc; reflexivity].
+      * apply import_keys in Imp. destruct Imp as (mk0&mk1&sz&pr&hl&Em&B0&B1&Ba&Bs).
+        destruct L as (Lc&Le&Ls). subst m. destruct (HK i h mk0 mk1 sz pr hl Lc) as [M0 M1].
+        assert (K5 : keep (ents s4 f) e5).
+        { unfold keep. rewrite Ba, Bs, B0, B1, M0, M1, E4, E3. cbn. auto. }
+        assert (O5 : Own ssz img (set_ent s4 f e5)) by (apply Own_set_keep; assumption).
+        assert (O6 : Own ssz img (set_ent (set_ent s4 f e5) f (e_set_swapsz e5 (h_esz h)))).
+        { apply Own_set_keep; [exact O5|]. st_simp. rewrite upd_same. unfold keep; cbn; auto. }
+        assert (Lv : live ssz img i h (MOk true mk0 mk1 sz pr hl)) by (split; [exact Lc|split; assumption]).
+        destruct (negb (h_esz h =? 0)).
+        -- destruct (h_esz h =? rr_entry_size_max).
+           { eapply Own_fp; [exact O5|eapply free_bad_entry_fp; eauto]. }
+           destruct (a_swapsz e5 =? 0).
+           ++ eapply add_tail_own; eauto.
+           ++ destruct (negb (h_esz h =? a_swapsz e5)).
+              ** eapply Own_fp; [exact O5|eapply free_bad_entry_fp; eauto].
+              ** eapply add_tail_own; eauto.
+        -- eapply add_tail_own; eauto.
+  - eapply add_tail_own; eauto.
 Qed.
